@@ -41,6 +41,7 @@ pub const SPEC: PropSpec = PropSpec {
 };
 
 pub struct Local {
+    noop_stream_runs: u64,
     cfg_seen: [u64; 128],
     dropped: u64,
     trim_s: u64,
@@ -59,6 +60,7 @@ pub struct Local {
 impl Local {
     fn new() -> Self {
         Local {
+            noop_stream_runs: 0,
             cfg_seen: [0; 128],
             dropped: 0,
             trim_s: 0,
@@ -285,13 +287,22 @@ fn config_probe(input: &[u8], c: u8, loc: &mut Local) -> Result<(), String> {
 /// (the options must act the same way on every source kind)
 fn check_src(input: &[u8], c: u8, known_f6: bool, cuts: Option<Vec<usize>>, loc: &mut Local) -> Result<u64, String> {
     let neutral = trace_slice(input, &CfgHist::fixed(CFG_NEUTRAL));
+    // for a third of the inputs the configured run also asks for `Reader::stream()` after each of its first
+    // ten calls and reads nothing through it: merely looking at the raw stream between two events (also
+    // between the two events of an expanded empty element) must not change anything
+    let mut cfgh = CfgHist::fixed(c);
+    if input.len() % 3 == 0 {
+        cfgh.raw = (0..10).map(|i| (i as u32, 0u8)).collect();
+        loc.noop_stream_runs += 1;
+    }
     let real = match cuts {
-        None => trace_slice(input, &CfgHist::fixed(c)),
+        None => trace_slice(input, &cfgh),
         Some(cuts) => {
             loc.buffered += 1;
-            crate::obs::trace_buffered(crate::sources::ChunkedRead::new(input, cuts), &CfgHist::fixed(c)).0
+            crate::obs::trace_buffered(crate::sources::ChunkedRead::new(input, cuts), &cfgh).0
         }
     };
+    let real: Vec<_> = real.into_iter().filter(|e| !matches!(e.obs, Obs::Raw(_))).collect();
     let exp = transform(&neutral, c, loc);
     let strings = !(find_sub(input, b"encoding").is_some()
         || input.starts_with(&[0xFE, 0xFF])
@@ -530,6 +541,7 @@ fn run(ctx: &mut Ctx) {
             ctx.add(&format!("cfg.{:03}", i), *n);
         }
     }
+    ctx.add("configured_runs_that_look_at_stream_between_events", loc.noop_stream_runs);
     ctx.add("texts_dropped", loc.dropped);
     ctx.add("texts_trimmed_start", loc.trim_s);
     ctx.add("texts_trimmed_end", loc.trim_e);
